@@ -104,13 +104,17 @@ func (e *Engine) indexAddr(g *Goroutine, fr *Frame, x *ssa.IndexAddr) bool {
 	switch xt := x.X.Type().Underlying().(type) {
 	case *types.Pointer:
 		at := xt.Elem().Underlying().(*types.Array)
-		p := e.get(fr, x.X).(Ptr)
+		p := e.asPtr(e.get(fr, x.X))
 		if p.Obj == nil {
 			e.goPanic(g, "nil pointer dereference (array index)")
 			return false
 		}
 		if !e.boundsCheck(g, idx, e.c64(at.Len()), "array") {
 			return false
+		}
+		if !idx.IsConst() && e.sizeOf(at.Elem()) == 1 && at.Len() <= 256 && e.scalarCells(p.Obj, p.Off, int(at.Len())) {
+			e.set(fr, x, SymPtr{Obj: p.Obj, Base: p.Off, Idx: idx, N: int(at.Len())})
+			return true
 		}
 		i := int(e.Concretize(idx, "array index"))
 		e.set(fr, x, Ptr{Obj: p.Obj, Off: p.Off + i*e.sizeOf(at.Elem())})
@@ -121,6 +125,11 @@ func (e *Engine) indexAddr(g *Goroutine, fr *Frame, x *ssa.IndexAddr) bool {
 			return false
 		}
 		pos := e.tb.Bin(term.KAdd, sl.Off, idx)
+		if !pos.IsConst() && e.sizeOf(xt.Elem()) == 1 && sl.Off.IsConst() && sl.Len.IsConst() && sl.Len.Val <= 256 &&
+			e.scalarCells(sl.Obj, sl.Base+int(sl.Off.Val), int(sl.Len.Val)) {
+			e.set(fr, x, SymPtr{Obj: sl.Obj, Base: sl.Base + int(sl.Off.Val), Idx: idx, N: int(sl.Len.Val)})
+			return true
+		}
 		i := int(e.Concretize(pos, "slice index"))
 		e.set(fr, x, Ptr{Obj: sl.Obj, Off: sl.Base + i*e.sizeOf(xt.Elem())})
 		return true
@@ -161,8 +170,59 @@ func (e *Engine) index(g *Goroutine, fr *Frame, x *ssa.Index) bool {
 
 // iteRead builds an ite chain over cells[base:base+n] selected by idx, if all are same-width terms.
 func (e *Engine) iteRead(cells []Value, base, n int, idx *term.T) (*term.T, bool) {
-	if n == 0 || n > 64 {
+	if n == 0 || n > 256 {
 		return nil, false
+	}
+	// constant table: group indices by value, most frequent value is the default
+	allConst := true
+	for i := 0; i < n; i++ {
+		c, ok := cells[base+i].(*term.T)
+		if !ok {
+			return nil, false
+		}
+		if !c.IsConst() {
+			allConst = false
+			break
+		}
+	}
+	if allConst && n > 4 {
+		groups := map[uint64][]int{}
+		var order []uint64
+		w := cells[base].(*term.T).W
+		for i := 0; i < n; i++ {
+			c := cells[base+i].(*term.T)
+			if c.W != w {
+				return nil, false
+			}
+			if _, ok := groups[c.Val]; !ok {
+				order = append(order, c.Val)
+			}
+			groups[c.Val] = append(groups[c.Val], i)
+		}
+		def := order[0]
+		for _, v := range order {
+			if len(groups[v]) > len(groups[def]) {
+				def = v
+			}
+		}
+		mk := func(v uint64) *term.T {
+			if w == 0 {
+				return e.tb.Bool(v != 0)
+			}
+			return e.tb.Const(w, v)
+		}
+		acc := mk(def)
+		for _, v := range order {
+			if v == def {
+				continue
+			}
+			cond := e.tb.False
+			for _, i := range groups[v] {
+				cond = e.tb.Or(cond, e.tb.Eq(idx, e.c64(int64(i))))
+			}
+			acc = e.tb.Ite(cond, mk(v), acc)
+		}
+		return acc, true
 	}
 	var acc *term.T
 	for i := n - 1; i >= 0; i-- {
@@ -187,6 +247,11 @@ func (e *Engine) strIndex(g *Goroutine, s String, idx *term.T) (*term.T, bool) {
 		return nil, false
 	}
 	pos := e.tb.Bin(term.KAdd, s.Off, idx)
+	if !pos.IsConst() && s.Off.IsConst() && s.Len.IsConst() && s.Len.Val <= 256 {
+		if r, ok := e.iteRead(s.Obj.Cells, s.Base+int(s.Off.Val), int(s.Len.Val), idx); ok {
+			return r, true
+		}
+	}
 	i := int(e.Concretize(pos, "string index"))
 	return s.Obj.Cells[s.Base+i].(*term.T), true
 }
@@ -660,10 +725,19 @@ func (e *Engine) rangeNext(g *Goroutine, x *ssa.Next, it *RangeIter) Value {
 			return Tuple{e.tb.False, e.c64(0), e.tb.Const(32, 0)}
 		}
 		b, _ := e.strIndex(g, it.S, e.c64(int64(it.Idx)))
-		if !e.Branch(e.tb.Cmp(term.KUlt, b, e.tb.Const(8, 0x80))) {
-			e.abort("unsupported", "non-ASCII byte in range over string")
-		}
 		i := it.Idx
+		if !e.Branch(e.tb.Cmp(term.KUlt, b, e.tb.Const(8, 0x80))) {
+			// multi-byte sequence: decode with the real unicode/utf8 code
+			pkg := e.prog.ImportedPackage("unicode/utf8")
+			if pkg == nil {
+				e.abort("unsupported", "non-ASCII byte in range over string (unicode/utf8 not loaded)")
+			}
+			rest := String{Obj: it.S.Obj, Base: it.S.Base, Off: e.tb.Bin(term.KAdd, it.S.Off, e.c64(int64(i))), Len: e.c64(int64(n - i))}
+			r := e.callNested(g, &Closure{Fn: pkg.Func("DecodeRuneInString")}, []Value{rest}).(Tuple)
+			size := int(e.Concretize(r[1].(*term.T), "rune size"))
+			it.Idx += size
+			return Tuple{e.tb.True, e.c64(int64(i)), r[0]}
+		}
 		it.Idx++
 		return Tuple{e.tb.True, e.c64(int64(i)), e.tb.ZExt(b, 32)}
 	}
@@ -677,4 +751,63 @@ func (e *Engine) rangeNext(g *Goroutine, x *ssa.Next, it *RangeIter) Value {
 		return Tuple{e.tb.True, it.M.Keys[i], it.M.Vals[i]}
 	}
 	return Tuple{e.tb.False, e.zeroValue(mt.Key()), e.zeroValue(mt.Elem())}
+}
+
+// scalarCells reports whether cells [base, base+n) of o all hold bit-vector terms of one width.
+func (e *Engine) scalarCells(o *Object, base, n int) bool {
+	if o == nil || n == 0 || base+n > len(o.Cells) {
+		return false
+	}
+	w := -1
+	for i := 0; i < n; i++ {
+		t, ok := o.Cells[base+i].(*term.T)
+		if !ok {
+			return false
+		}
+		if w < 0 {
+			w = t.W
+		} else if t.W != w {
+			return false
+		}
+	}
+	return true
+}
+
+// symLoad reads through a symbolic-index pointer.
+func (e *Engine) symLoad(p SymPtr) Value {
+	r, ok := e.iteRead(p.Obj.Cells, p.Base, p.N, p.Idx)
+	if !ok {
+		i := int(e.Concretize(p.Idx, "symbolic pointer index"))
+		return p.Obj.Cells[p.Base+i]
+	}
+	return r
+}
+
+// symStore writes through a symbolic-index pointer as a guarded update of every candidate cell.
+func (e *Engine) symStore(p SymPtr, v Value) {
+	nv, ok := v.(*term.T)
+	if !ok || !e.scalarCells(p.Obj, p.Base, p.N) || p.Obj.Cells[p.Base].(*term.T).W != nv.W {
+		i := int(e.Concretize(p.Idx, "symbolic pointer index"))
+		p.Obj.Cells[p.Base+i] = v
+		return
+	}
+	if p.Obj.ReadOnly {
+		panic("store to read-only object " + p.Obj.Name)
+	}
+	for i := 0; i < p.N; i++ {
+		old := p.Obj.Cells[p.Base+i].(*term.T)
+		p.Obj.Cells[p.Base+i] = e.tb.Ite(e.tb.Eq(p.Idx, e.c64(int64(i))), nv, old)
+	}
+}
+
+// asPtr converts a pointer-like value to a concrete pointer (forking on a symbolic index).
+func (e *Engine) asPtr(v Value) Ptr {
+	switch p := v.(type) {
+	case Ptr:
+		return p
+	case SymPtr:
+		i := int(e.Concretize(p.Idx, "symbolic pointer index"))
+		return Ptr{Obj: p.Obj, Off: p.Base + i}
+	}
+	panic(fmt.Sprintf("asPtr on %T", v))
 }
